@@ -34,6 +34,9 @@ def check(case):
     e, g = mk(ye, case["neg_est"], case["frame"], case.get("tilt_est", (0.0, 0.0))), mk(yg, case["neg_gt"], case["frame"], case.get("tilt_gt", (0.0, 0.0)))
     tf = build.transforms(dict(x=3.0, y=-1.0, yaw=0.8))
     r = DynamicObjectWithPerceptionResult(e, g, transforms=tf)
+    if case.get("warm"):
+        # the weight depends on the orientations only: a heading read earlier through the real ego transform (of one object) must leave no trace
+        g.get_heading_bev(tf if case["frame"] != "base_link" else None)
     d = abs(wrap(ye - yg))
     tilted = any(case.get(k, (0.0, 0.0)) != (0.0, 0.0) and tuple(case.get(k)) != (0.0, 0.0) for k in ("tilt_est", "tilt_gt"))
     if tilted:
@@ -57,6 +60,14 @@ def check(case):
     rev = TPMetricsAph().get_value(DynamicObjectWithPerceptionResult(g, e, transforms=tf))
     if abs(rev - got) > 1e-6:
         return f"APH weight is not symmetric: {got:.4f} vs {rev:.4f}"
+    if not tilted and case.get("turn") is not None:
+        # ... nor may the orientation an object had before it was re-assigned
+        e.state.orientation = build.quat_yaw(ye + case["turn"])
+        got2 = TPMetricsAph().get_value(r)
+        want2 = 1.0 - abs(wrap(ye + case["turn"] - yg)) / math.pi
+        if abs(got2 - want2) > 1e-6:
+            return f"after the estimate was turned by {case['turn']} rad the APH weight is {got2:.4f}, expected {want2:.4f}"
+        e.state.orientation = build.quat_yaw(ye)
     err = e.get_heading_error(g)[2]
     if not (-math.pi - 1e-9 <= err <= math.pi + 1e-9) or abs(abs(err) - d) > 1e-6:
         return f"yaw error for estimate yaw {ye:.3f}, ground truth yaw {yg:.3f} is {err:.4f}; expected magnitude {d:.4f} within [-pi, pi]"
@@ -74,6 +85,10 @@ def search(item, seed):
         t = rnd.choice(tilts)
         k = rnd.random()
         cases.append(dict(c, tilt_est=t) if k < 0.4 else dict(c, tilt_gt=t) if k < 0.7 else dict(c, tilt_est=t, tilt_gt=t))
+    for c in cases[::5]:
+        c["warm"] = True
+    for c in cases[2::9]:
+        c["turn"] = rnd.choice([1.0, -2.0, math.pi])
     rnd.shuffle(cases)
     for case in cases[:900]:
         why = check(case)
